@@ -169,7 +169,12 @@ def prior(ix, R, tag, site, name, known=False):
             if ra_ is not None and ra_.head == 'call' and ra_.extra[0] in ('fn:tuple', 'fn:list', 'fn:array') and len(ra_.args) == 1:
                 rv_ = ra_.args[0]
             as_comp = fl.tab.equal(rv_, wantc)
-        if as_comp:
+        if as_comp and tag == 'multinest':
+            # the hand-off protocol of this sampler: pymultinest calls Prior(cube, ndim, nparams) for its side effect on
+            # `cube` (a C array it owns) and ignores what the callback returns
+            why.append('the transformed values are returned as a new sequence, but pymultinest ignores the value its prior '
+                       'callback returns: the cube has to be overwritten in place')
+        elif as_comp:
             pass
         elif len(sc) != 1:
             why.append('%d sample() calls (output is not produced by fitting_priors[i].sample)' % len(sc))
